@@ -168,10 +168,21 @@ Section AtNone.
     mbit mode mLiteral = false -> mbit mode mPattern = false -> mbit mode mArith = false -> mbit mode mQuote = false ->
     expand_top users glob e [WQuote 34 [WParam s_at [] None]] mode = Ok (e, []).
   Proof.
-    intros Ha HL HP HA HQ. unfold expand_top. cbn [word_size fold_right part_size plus mult].
+    intros Ha HL HP HA HQ. unfold expand_top, quoted_at_only. rewrite HQ. cbn [andb]. cbv iota. cbn [word_size fold_right part_size plus mult].
     cbn [expand]. fold (expand users) (expand_parts users) (expand_param users). rewrite HQ.
     apply Nat.leb_le in Ha.
     change ((34 =? 92) || (34 =? 39)) with false. change (34 =? 34) with true. change (only_at [WParam s_at [] None]) with true.
     rewrite Ha. cbn [andb]. cbv iota. rewrite HL, HP. cbn [fold_left]. rewrite HA. cbn [orb fempty forallb]. reflexivity.
+  Qed.
+
+  (** Expand in Quote mode expands a word "as if it is within double-quotes": the word $@ (a run of
+      $@ expansions) without positional parameters is no field there either *)
+  Theorem at_in_quote_mode_is_no_field e w mode :
+    only_at w = true -> (length (args e) <= 1)%nat ->
+    mbit mode mQuote = true -> mbit mode mLiteral = false -> mbit mode mPattern = false ->
+    expand_top users glob e w mode = Ok (e, []).
+  Proof.
+    intros Hw Ha HQ HL HP. unfold expand_top, quoted_at_only. apply Nat.leb_le in Ha.
+    rewrite HQ, HL, HP, Ha, Hw. reflexivity.
   Qed.
 End AtNone.
